@@ -576,6 +576,9 @@ def replay(path, build):
 def run(tier, seed, build):
     rep = Report("C13", tier, seed)
     phase(rep, tier, seed)
+    # the assembly builder functions (which panels, where, joined how): Layout.tla
+    import layout
+    layout.phase(rep, tier, seed)
     return rep.finish()
 
 
